@@ -182,6 +182,37 @@ def closure_purity(ctx, rule, parent_fi, parent_res, fn_term, label):
            stmt=f"{label} captures " + ", ".join(sorted({nm.id for nm, _ in captured})))
 
 
+def dist_from_args(ctx, rule, parent_fi, parent_res, fn_term, label):
+    """The function stored in the new Dist node is called with the CURRENT values of the
+    original distribution's inputs on every update: the base distribution must be built
+    from those arguments inside the function (an instance captured from the enclosing
+    scope is frozen at the parameter values of transformation time)."""
+    repo = ctx.repo
+    if fn_term[0] != "fn" or fn_term[1] not in repo.functions:
+        return
+    fi = repo.functions[fn_term[1]]
+    ret = evaluate(repo, fi, closure=parent_res.closure()).ret()
+    tds = sorted({x for x in subterms(ret or ()) if x[0] == "call"
+                  and ((fn_name(x[1]) or "").endswith(".TransformedDistribution")
+                       or (x[1][0] == "a" and x[1][2] == "TransformedDistribution"))}, key=repr)
+    a_ = fi.node.args
+    params = [x.arg for x in a_.posonlyargs + a_.args + a_.kwonlyargs]
+    params += [x.arg for x in (a_.vararg, a_.kwarg) if x]
+    ok, detail = False, short(ret or (), 160)
+    if len(tds) == 1:
+        base = kw(tds[0], "distribution", 0)
+        if base is not None:
+            inner = set(subterms(base))
+            uses_args = any(n(p_) in inner for p_ in params)
+            ok = base[0] == "call" and uses_args
+            detail = f"base distribution {short(base, 120)}"
+    ctx.ob(rule, parent_fi, f"{label} builds the base distribution from its own arguments (the "
+                            f"current parameter values), not from an instance made at "
+                            f"transformation time", ok, detail=detail,
+           stmt=f"{label} base distribution " + pretty(kw(tds[0], 'distribution', 0) or ())[:100]
+           if len(tds) == 1 else f"{label} base distribution ?")
+
+
 def _site(ctx, fi, label, got, want_parity, ident_ref=None):
     ident, p = got
     ok = p == want_parity and (ident_ref is None or ident == ident_ref)
@@ -249,6 +280,8 @@ def check(ctx):
         if is_call(dist_node, f"{NODES}.Dist") and dist_node[2]:
             closure_purity(ctx, "C14.R1", fa, ra, dist_node[2][0],
                            "the transformed-distribution function")
+            dist_from_args(ctx, "C14.R1", fa, ra, dist_node[2][0],
+                           "the transformed-distribution function (instance helper)")
         _flags_of_dist(ctx, fa, dist_node, ra)
 
     # ------------------------------------------------------------------ (b) class
@@ -293,6 +326,8 @@ def check(ctx):
             if is_call(dist_node, f"{NODES}.Dist") and dist_node[2]:
                 closure_purity(ctx, "C14.R1", fb, rb, dist_node[2][0],
                                "the transformed-distribution function")
+                dist_from_args(ctx, "C14.R1", fb, rb, dist_node[2][0],
+                               "the transformed-distribution function (class helper)")
             r = pb.closure_ret(vn[0][2][0])
             _site(ctx, fb, "value node of the original variable",
                   pb.apply(r) if r is not None else (None, None), 1, ident)
@@ -337,6 +372,23 @@ def check(ctx):
                len(i_model) == 1 and i_read and i_model[0] < min(i_read),
                detail=f"Model([var]) at call #{i_model}, first init_dist at #{i_read[:1]}",
                stmt="local model sweep")
+        # ... with the variable's auto-transform flag already cleared (the local build would
+        # otherwise transform it a first time), and the variable ends up in the builder
+        guard_atoms = {a for rc_, _, _ in rc.raises for a, _ in rc_}
+        at_st = [nd.lineno for loc, val, nd, cond in rc.stores
+                 if loc == ("a", n("var"), "auto_transform") and val == c(False)
+                 and all(a in guard_atoms for a, _ in cond)]
+        model_ln = [nd.lineno for t, nd, _ in rc.calls
+                    if is_call(t, f"{MODEL}.Model") and t[2][:1] == (("list", (n("var"),)),)]
+        ctx.ob("C14.R2", fc, "GraphBuilder.transform clears var.auto_transform before it builds "
+                             "the local model (the build would transform the variable a first "
+                             "time otherwise)", bool(at_st) and bool(model_ln)
+               and min(at_st) < min(model_ln), detail=f"cleared at {at_st}, local build at {model_ln}",
+               stmt="deprecated transform: auto_transform cleared first")
+        adds = [t for t, _, cond in rc.calls if t == ("call", ("a", n("self"), "add"), (n("var"),), ())]
+        ctx.ob("C14.R2", fc, "GraphBuilder.transform adds the variable to the builder (so the "
+                             "model built later contains the new variable through it)",
+               len(adds) == 1, stmt="deprecated transform: self.add(var)")
         tb = repo.func(f"{MODEL}._transform_back")
         rtb = evaluate(repo, tb)
         inner = tb.nested("fn")
@@ -353,6 +405,8 @@ def check(ctx):
         if is_call(dist_node, f"{NODES}.Dist") and dist_node[2]:
             closure_purity(ctx, "C14.R1", fc, rc, dist_node[2][0],
                            "the transformed-distribution function")
+            dist_from_args(ctx, "C14.R1", fc, rc, dist_node[2][0],
+                           "the transformed-distribution function (deprecated method)")
         ctx.ob("C14.R1", tb, "_transform_back maps the new variable through the INVERSE of "
                              "the transformed distribution's bijector (T = b^-1, so this is "
                              "b): value node parity +1", ok_tb, detail=short(ri or ()),
@@ -534,7 +588,8 @@ def check(ctx):
     # ---- shared mechanisms: the neighbour's rules run as obligations of this property
     ctx.include("C01", "C14.R4", only=['C01.R8'])
     ctx.include("C18", "C14.R4", only=['C18.R2'])
-    ctx.rule("R4", "shared mechanisms, run as obligations of this property: values read while transforming come from a swept model: only the sweep sites call node.update() (C01.R8); liesel's own bijector has consistent log-det-Jacobians (C18.R2).")
+    ctx.include("C02", "C14.R4", only=['C02.R1', 'C02.R4'])
+    ctx.rule("R4", "shared mechanisms, run as obligations of this property: the model totals are collected from a traversal made AFTER the auto-transforms, so the original variable's old distribution is not in the model (C02.R1/R4); values read while transforming come from a swept model: only the sweep sites call node.update() (C01.R8); liesel's own bijector has consistent log-det-Jacobians (C18.R2).")
 
 
 def _flags_of_dist(ctx, fi, dist_node, res):
